@@ -29,7 +29,9 @@ type V = Option<(String, String, String)>;
 /// the data a term was added with
 #[derive(Clone, Debug, Default, PartialEq)]
 struct Want {
-    name: String,
+    /// every name the id was added with (more than one only when new_term was called twice for the id: which of
+    /// the calls counts is not part of the property)
+    names: Vec<String>,
     obsolete: bool,
     replacement: Option<u32>,
     /// direct parents, ascending
@@ -41,7 +43,10 @@ type Added = BTreeMap<u32, Want>;
 fn added_from_facts(f: &Facts) -> Added {
     let mut m: Added = BTreeMap::new();
     for t in &f.terms {
-        m.entry(t.id).or_insert_with(|| Want { name: t.name.clone(), obsolete: t.obsolete, replacement: t.replacement, parents: vec![] });
+        let w = m.entry(t.id).or_insert_with(|| Want { names: vec![], obsolete: t.obsolete, replacement: t.replacement, parents: vec![] });
+        if !w.names.contains(&t.name) {
+            w.names.push(t.name.clone());
+        }
     }
     for &(c, p) in &f.edges {
         if m.contains_key(&p) {
@@ -58,10 +63,61 @@ fn added_from_facts(f: &Facts) -> Added {
     m
 }
 
+/// The same facts with the ids INSIDE every record of a binary file in ascending order: the parents of one term
+/// and the terms of one gene / disease keep the list positions they have, sorted among themselves (the order of
+/// the records - first appearance - stays as it is). `Ontology::as_bytes` writes such lists; the layout tables
+/// are silent about other orders.
+pub(super) fn with_ascending_lists(f: &Facts) -> Facts {
+    let mut g = f.clone();
+    let children: BTreeSet<u32> = f.edges.iter().map(|e| e.0).collect();
+    for c in children {
+        let pos: Vec<usize> = (0..f.edges.len()).filter(|i| f.edges[*i].0 == c).collect();
+        let mut ps: Vec<u32> = pos.iter().map(|i| f.edges[*i].1).collect();
+        ps.sort_unstable();
+        for (k, i) in pos.iter().enumerate() {
+            g.edges[*i].1 = ps[k];
+        }
+    }
+    let recs: BTreeSet<(Kind, u32)> = f.anns.iter().map(|a| (a.kind, a.id)).collect();
+    for (kind, id) in recs {
+        let pos: Vec<usize> = (0..f.anns.len()).filter(|i| f.anns[*i].kind == kind && f.anns[*i].id == id && f.anns[*i].term.is_some()).collect();
+        let mut ts: Vec<Option<u32>> = pos.iter().map(|i| f.anns[*i].term).collect();
+        ts.sort_unstable();
+        for (k, i) in pos.iter().enumerate() {
+            g.anns[*i].term = ts[k];
+        }
+    }
+    g
+}
+
+/// Encode (independent encoder) and decode. A decoder may insist on ascending ids inside a record (no property
+/// says that it must take them in any order): when the file is refused AND some list in it is not ascending, the
+/// same facts are written once more with ascending lists and that file decides. Err(what the decoder said).
+pub(super) fn decode_tolerant(pf: &Facts, o: &crate::encode::EncOpts) -> Result<Ontology, String> {
+    let flat = |r: Result<Result<Ontology, String>, String>| -> Result<Ontology, String> {
+        match r {
+            Ok(Ok(o)) => Ok(o),
+            Ok(Err(e)) => Err(e),
+            Err(p) => Err(format!("panic: {p}")),
+        }
+    };
+    match flat(drive::from_bytes(&crate::encode::encode(pf, o))) {
+        Ok(ont) => Ok(ont),
+        Err(e) => {
+            let asc = with_ascending_lists(pf);
+            if asc == *pf {
+                Err(e)
+            } else {
+                flat(drive::from_bytes(&crate::encode::encode(&asc, o))).map_err(|e2| format!("{e2} (ids inside the records ascending; with the ids in supply order: {e})"))
+            }
+        }
+    }
+}
+
 /// id, name, flags, replacement and direct parents of a looked-up term against what it was added with
 fn same_data(t: &HpoTerm, id: u32, w: &Want, added: &Added) -> Option<String> {
-    if t.id().as_u32() != id || t.name() != w.name {
-        return Some(format!("id {} name {:?}, added with name {:?}", t.id().as_u32(), t.name(), w.name));
+    if t.id().as_u32() != id || !w.names.iter().any(|n| n == t.name()) {
+        return Some(format!("id {} name {:?}, added with name {:?}", t.id().as_u32(), t.name(), w.names));
     }
     if t.is_obsolete() != w.obsolete {
         return Some(format!("is_obsolete() = {}, added with {}", t.is_obsolete(), w.obsolete));
@@ -100,6 +156,10 @@ fn check_keys<I: Iterator<Item = u32>>(ont: &Ontology, added: &Added, keys: I) -
             (Ok(t), Some(w)) => {
                 if let Some(d) = same_data(&t, id, w, added) {
                     return Some(("HpoTerm::try_new".into(), "returns a term with another id or other data than it was added with".into(), format!("try_new({id}) -> {d}")));
+                }
+                // (an id that was added under two names: whichever name counts, both lookups see the same term)
+                if w.names.len() > 1 && got.map(|g| g.name() != t.name()).unwrap_or(false) {
+                    return Some(("HpoTerm::try_new".into(), "returns a term with another id or other data than it was added with".into(), format!("try_new({id}) has the name {:?}, hpo({id}) the name {:?}", t.name(), got.map(|g| g.name().to_string()))));
                 }
             }
             (Err(_), None) => {}
@@ -285,19 +345,79 @@ fn check_records(ont: &Ontology, genes: &BTreeMap<u32, String>, omim: &BTreeMap<
         None
 }
 
+/// The record lookups alternating KEY BY KEY between two live ontologies: every id key, symbol and query is asked
+/// of a, then of b, then of a again (a one-entry memo "last key -> record" that forgets which ontology it belongs
+/// to answers the second or third question from the wrong one); then pairs of name searches - one on a, one on b,
+/// different queries - are advanced in turns while both are alive.
+#[allow(clippy::too_many_arguments)]
+fn check_records_alternating(a: &Ontology, am: [&BTreeMap<u32, String>; 3], b: &Ontology, bm: [&BTreeMap<u32, String>; 3], key_ids: &[u32], symbol_keys: &[String], queries: &[String]) -> V {
+    let mut unused = false;
+    let tag = |v: V, what: &str| v.map(|(site, sig, det)| (site, format!("[lookups alternating between two ontologies] {sig}"), format!("{what}: {det}")));
+    let turns = [(a, am, "first ontology"), (b, bm, "second ontology, right after the same key on the first"), (a, am, "first ontology, right after the same key on the second")];
+    for k in key_ids {
+        for (ont, m, what) in &turns {
+            if let Some(v) = tag(check_records(ont, m[0], m[1], m[2], std::slice::from_ref(k), &[], &[], &mut unused), what) {
+                return Some(v);
+            }
+        }
+    }
+    for s in symbol_keys {
+        for (ont, m, what) in &turns {
+            if let Some(v) = tag(check_records(ont, m[0], m[1], m[2], &[], std::slice::from_ref(s), &[], &mut unused), what) {
+                return Some(v);
+            }
+        }
+    }
+    for q in queries {
+        for (ont, m, what) in &turns {
+            if let Some(v) = tag(check_records(ont, m[0], m[1], m[2], &[], &[], std::slice::from_ref(q), &mut unused), what) {
+                return Some(v);
+            }
+        }
+    }
+    // two searches alive at the same time, advanced in turns
+    for w in queries.windows(2) {
+        let (qa, qb) = (&w[0], &w[1]);
+        let (mut ia, mut ib) = (a.omim_diseases_by_name(qa), b.omim_diseases_by_name(qb));
+        let (mut ga, mut gb): (Vec<u32>, Vec<u32>) = (vec![], vec![]);
+        loop {
+            let (x, y) = (ia.next(), ib.next());
+            if let Some(d) = x {
+                ga.push(d.id().as_u32());
+            }
+            if let Some(d) = y {
+                gb.push(d.id().as_u32());
+            }
+            if x.is_none() && y.is_none() {
+                break;
+            }
+        }
+        for (got, m, q, what) in [(&mut ga, am[1], qa, "first ontology"), (&mut gb, bm[1], qb, "second ontology")] {
+            got.sort_unstable();
+            let want: Vec<u32> = m.iter().filter(|(_, n)| n.contains(q.as_str())).map(|(i, _)| *i).collect();
+            if *got != want {
+                return Some(("Ontology::omim_diseases_by_name".into(), "[two searches advanced in turns] does not return exactly the diseases whose name contains the query".into(), format!("{what}, query {q:?} (the other search: {:?}): observed {got:?} expected {want:?}", if what == "first ontology" { qb } else { qa })));
+            }
+        }
+    }
+    None
+}
+
 pub fn run(ctx: &mut Ctx) {
     let thorough = ctx.tier.thorough();
-    ctx.rule = "terms: case = one ontology (id set x insertion order, repeated ids included) with hpo(id)/try_new for every id of 0..10^7 (canonical order of each id set) or the border keys (other orders, clones, two live ontologies alternating), comparing id, name, flags, replacement and direct parents, plus iteration/len; the same id sets through the binary decoder and the text loader; records: case = one record set (<= 4 genes / 13 diseases exhaustively, 31 ... 300 generated ones) with every id key and every query string; distinct by construction; non-trivial = ontology with at least one id at a border of the id space or a repeated id, resp. a record set where some query matches a strict subset".into();
+    ctx.rule = "terms: case = one ontology (id set x insertion order, repeated ids included) with hpo(id)/try_new for every id of 0..10^7 (canonical order of each id set) or the border keys (other orders, clones, two live ontologies alternating), comparing id, name, flags, replacement and direct parents, plus iteration/len; the same id sets through the binary decoder and the text loader; records: case = one record set (<= 4 genes / 13 diseases exhaustively, <= 2 of 10 periodic disease names, 31 ... 300 generated ones) in two ontologies with every id key and every query string, asked ontology by ontology, key by key in turns, and on a clone; distinct by construction; non-trivial = ontology with at least one id at a border of the id space or a repeated id, resp. a record set where some query matches a strict subset".into();
     ctx.assumptions = vec![
         "term ids are < 10^7 (documented id range; new_term with a larger id panics and is outside the quantifier)".into(),
-        "new_term with an id that was already added does nothing (documented): the first name wins".into(),
+        "new_term called twice for one id: which call counts is not part of the property (the public documentation is silent) - the id must be stored once, under one of the names it was added with, and a builder that refuses such a call is not judged".into(),
+        "HP:0000000 as a term of its own: a constructor (Builder, decoder, text loader) that refuses it is not judged; when it constructs, every lookup demand holds".into(),
+        "binary files: a decoder that refuses a file whose ids inside a record are not ascending is not judged here - the same facts with ascending lists decide".into(),
         "gene_by_name / omim_disease_by_name return some matching record when several match".into(),
     ];
     let borders = border_keys();
     let pool: [u32; 6] = [0, 1, 2, 118, 9_999_998, 9_999_999];
 
     // ---- all subsets of the border pool; full id sweep on the canonical order, border keys on all other orders
-    ctx.space("terms/border-pool-subsets", "all 64 subsets of {0,1,2,118,9999998,9999999}: full sweep hpo(id) for every id 0..10^7+10^4 on the ascending insertion order; every insertion order (<= 4 elements) or rotation/reverse (more) and every single repeated id checked on the border keys, each of these ontologies also alternating key by key with the previous one of the case (same ids, other slots), which is kept alive; border keys and iteration again on ont.clone() and on a clone of the clone after the originals are dropped (canonical order and the last repeated-id order of every subset)");
+    ctx.space("terms/border-pool-subsets", "all 64 subsets of {0,1,2,118,9999998,9999999}: full sweep hpo(id) for every id 0..10^7+10^4 on the ascending insertion order; every insertion order (<= 4 elements) or rotation/reverse (more) and every single repeated id (added a second time under another name: stored once, under either name) checked on the border keys, each of these ontologies also alternating key by key with the previous one of the case (same ids, other slots), which is kept alive; border keys and iteration again on ont.clone() and on a clone of the clone after the originals are dropped (canonical order and the last repeated-id order of every subset)");
     for mask in 0u32..64 {
         let ids: Vec<u32> = crate::space::bits(mask, 6).iter().map(|i| pool[*i]).collect();
         // canonical: full sweep, one case per subset
@@ -310,6 +430,8 @@ pub fn run(ctx: &mut Ctx) {
             let (f, added) = term_facts(&seq);
             ctx.transitions(f.n_steps() + (MAX_ID as u64 + 10_000));
             match drive::build(&f, Mode::Minimal) {
+                // (a builder that refuses HP:0000000 as a term adds nothing, so there is nothing to look up)
+                Err(_) if ids.contains(&0) => ctx.bump("construction_refused_with_term_id_0", 1),
                 Err(e) => ctx.violation("Builder::new_term", "construction fails", json!({"ids": ids, "observed": e})),
                 Ok(ont) => {
                     let r = guard(|| check_keys(&ont, &added, 0..MAX_ID + 10_000).or_else(|| check_keys(&ont, &added, borders.iter().copied())).or_else(|| check_keys(&ont, &added, u32::MAX - 10_000..=u32::MAX)).or_else(|| check_iteration(&ont, &added)));
@@ -357,6 +479,9 @@ pub fn run(ctx: &mut Ctx) {
                 ctx.exec();
                 ctx.validated();
                 match drive::build(&f, Mode::Minimal) {
+                    // (refusing a second new_term for one id, or HP:0000000 as a term, is not judged)
+                    Err(_) if added.len() < seq.len() => ctx.bump("construction_refused_for_a_repeated_id", 1),
+                    Err(_) if ids.contains(&0) => ctx.bump("construction_refused_with_term_id_0", 1),
                     Err(e) => ctx.violation("Builder::new_term", "construction fails", json!({"new_term calls": seq, "observed": e})),
                     Ok(ont) => {
                         let r = guard(|| {
@@ -437,6 +562,7 @@ pub fn run(ctx: &mut Ctx) {
             ctx.execs(keys.len() as u64);
             ctx.validateds(keys.len() as u64);
             match drive::build(&f, Mode::Minimal) {
+                Err(_) if ids.contains(&0) => ctx.bump("construction_refused_with_term_id_0", 1),
                 Err(e) => ctx.violation("Builder::new_term", "construction fails", json!({"term_ids_added": ids, "insertion_order": order, "observed": e})),
                 Ok(ont) => match guard(|| check_keys(&ont, &added, keys.iter().copied()).or_else(|| check_iteration(&ont, &added))) {
                     Ok(None) => {}
@@ -451,7 +577,7 @@ pub fn run(ctx: &mut Ctx) {
     // ---- ontologies built by the binary decoder and the text loader (names incl. the empty one, every record order)
     {
         let family = crate::props::common::format_family(4, if thorough { 1 } else { 8 });
-        ctx.space("terms/decoded-ontologies", &format!("{} small fact sets (names \"\", x, é, a: b; flags; records) decoded from binary v1/v2/v3 in every term-record order and from hp.obo in every stanza order: hpo(id) / try_new(id) for 0..1200, the border keys and every added id, comparing id, name, obsolete flag, replacement and direct parents with the facts; iteration; len", family.len()));
+        ctx.space("terms/decoded-ontologies", &format!("{} small fact sets (names \"\", x, é, a: b; flags; records) decoded from binary v1/v2/v3 in every term-record order (a file with descending ids inside a record that is refused is written again with ascending ones) and from hp.obo in every stanza order: hpo(id) / try_new(id) for 0..1200, the border keys and every added id, comparing id, name, obsolete flag, replacement and direct parents with the facts; iteration; len", family.len()));
         for (f, what) in &family {
             if !ctx.take() {
                 continue;
@@ -473,17 +599,16 @@ pub fn run(ctx: &mut Ctx) {
                     let pf = crate::encode::project(&g, version);
                     // name, obsolete flag, replacement and direct parents as this format version carries them
                     let added = added_from_facts(&pf);
-                    let bytes = crate::encode::encode(&pf, &crate::encode::EncOpts::v(version));
                     ctx.transitions(pf.n_steps() + keys.len() as u64);
                     ctx.exec();
                     ctx.validated();
-                    match drive::from_bytes(&bytes) {
-                        Ok(Ok(ont)) => match guard(|| check_keys(&ont, &added, keys.iter().copied()).or_else(|| check_iteration(&ont, &added))) {
+                    match decode_tolerant(&pf, &crate::encode::EncOpts::list_order(version)) {
+                        Ok(ont) => match guard(|| check_keys(&ont, &added, keys.iter().copied()).or_else(|| check_iteration(&ont, &added))) {
                             Ok(None) => {}
                             Ok(Some((site, sig, det))) => ctx.violation(&site, &format!("[decoded from binary v{version}] {sig}"), json!({"family": what, "facts": pf.to_json(), "term_record_order": p, "difference": det})),
                             Err(pn) => ctx.violation("Ontology::hpo", "panics", json!({"family": what, "facts": pf.to_json(), "observed": pn})),
                         },
-                        other => ctx.violation("Ontology::from_bytes", "rejects a file laid out as documented", json!({"family": what, "facts": pf.to_json(), "observed": format!("{:?}", other.map(|r| r.map(|_| ())))})),
+                        Err(e) => ctx.violation("Ontology::from_bytes", "rejects a file laid out as documented", json!({"family": what, "facts": pf.to_json(), "observed": e})),
                     }
                 }
                 // text path (no empty names there)
@@ -506,7 +631,7 @@ pub fn run(ctx: &mut Ctx) {
                         2 => jo.distractors = vec![crate::jax::Distractor::TagsBeforeName],
                         _ => {}
                     }
-                    match crate::jax::load(&crate::jax::render(&tf, &jo), false) {
+                    match crate::jax::load_with(&crate::jax::render(&tf, &jo), false, crate::jax::OtherGeneFile::Absent) {
                         Ok(Ok(ont)) => match guard(|| check_keys(&ont, &tadded, keys.iter().copied()).or_else(|| check_iteration(&ont, &tadded))) {
                             Ok(None) => {}
                             Ok(Some((site, sig, det))) => ctx.violation(&site, &format!("[loaded from hp.obo] {sig}"), json!({"family": what, "facts": tf.to_json(), "stanza_order": p, "stanza_layout": format!("{:?}", jo.distractors), "difference": det})),
@@ -523,7 +648,7 @@ pub fn run(ctx: &mut Ctx) {
 
     // ---- the border pool through the decoders: ids 0, 2, 9 999 998, 9 999 999 as term record, parent, replacement
     {
-        ctx.space("terms/decoded-border-ids", "all 64 subsets of {0,1,2,118,9999998,9999999} plus the two roots 1 and 118, linked as a chain in id order (the largest term also is_a HP:1; the largest term obsolete and replaced by the next smaller one; the next smaller one names the largest as replacement without being obsolete): decoded from binary v1, v2, v3 and loaded from hp.obo, each in ascending and descending record order: hpo(id) / try_new(id) with id, name, flags, replacement and direct parents for 0..300, every id +-2, the border keys; iteration; len; the v3 ontology also through clones");
+        ctx.space("terms/decoded-border-ids", "all 64 subsets of {0,1,2,118,9999998,9999999} plus the two roots 1 and 118, linked as a chain in id order (the largest term also is_a HP:1; the largest term obsolete and replaced by the next smaller one; the next smaller one names the largest as replacement without being obsolete): decoded from binary v1, v2, v3 and loaded from hp.obo, each in ascending and descending order of the records and of the parent ids inside a record (a descending file that is refused is written again with ascending ids inside the records): hpo(id) / try_new(id) with id, name, flags, replacement and direct parents for 0..300, every id +-2, the border keys; iteration; len; the v3 ontology also through clones");
         for mask in 0u32..64 {
             if !ctx.take() {
                 continue;
@@ -574,8 +699,11 @@ pub fn run(ctx: &mut Ctx) {
                 }
             }
             keys.extend(borders.iter().copied());
+            let has_zero = ids.contains(&0);
             for descending in [false, true] {
-                let mut g = f.clone();
+                // ascending: term records, parent records and the parent ids inside a record ascending;
+                // descending: all three descending
+                let mut g = with_ascending_lists(&f);
                 if descending {
                     g.terms.reverse();
                     g.edges.reverse();
@@ -583,12 +711,11 @@ pub fn run(ctx: &mut Ctx) {
                 for version in [3u8, 2, 1] {
                     let pf = crate::encode::project(&g, version);
                     let added = added_from_facts(&pf);
-                    let bytes = crate::encode::encode(&pf, &crate::encode::EncOpts::v(version));
                     ctx.transitions(pf.n_steps() + keys.len() as u64);
                     ctx.execs(keys.len() as u64);
                     ctx.validateds(keys.len() as u64);
-                    match drive::from_bytes(&bytes) {
-                        Ok(Ok(ont)) => {
+                    match decode_tolerant(&pf, &crate::encode::EncOpts::list_order(version)) {
+                        Ok(ont) => {
                             let r = guard(|| {
                                 let first = check_keys(&ont, &added, keys.iter().copied()).or_else(|| check_iteration(&ont, &added));
                                 if first.is_none() && version == 3 && !descending {
@@ -603,7 +730,9 @@ pub fn run(ctx: &mut Ctx) {
                                 Err(pn) => ctx.violation("Ontology::hpo", &format!("[decoded from binary v{version}] panics"), json!({"facts": pf.to_json(), "observed": pn})),
                             }
                         }
-                        other => ctx.violation("Ontology::from_bytes", "rejects a file laid out as documented", json!({"facts": pf.to_json(), "format_version": version, "observed": format!("{:?}", other.map(|r| r.map(|_| ())))})),
+                        // (a decoder that refuses HP:0000000 as a term is not judged)
+                        Err(_) if has_zero => ctx.bump("construction_refused_with_term_id_0", 1),
+                        Err(e) => ctx.violation("Ontology::from_bytes", "rejects a file laid out as documented", json!({"facts": pf.to_json(), "format_version": version, "observed": e})),
                     }
                 }
                 let added = added_from_facts(&g);
@@ -614,12 +743,13 @@ pub fn run(ctx: &mut Ctx) {
                 if mask % 2 == 1 {
                     jo.distractors = vec![crate::jax::Distractor::ExtraTags];
                 }
-                match crate::jax::load(&crate::jax::render(&g, &jo), descending) {
+                match crate::jax::load_with(&crate::jax::render(&g, &jo), descending, crate::jax::OtherGeneFile::Absent) {
                     Ok(Ok(ont)) => match guard(|| check_keys(&ont, &added, keys.iter().copied()).or_else(|| check_iteration(&ont, &added))) {
                         Ok(None) => {}
                         Ok(Some((site, sig, det))) => ctx.violation(&site, &format!("[loaded from hp.obo] {sig}"), json!({"facts": g.to_json(), "stanzas": if descending { "descending ids" } else { "ascending ids" }, "difference": det})),
                         Err(pn) => ctx.violation("Ontology::hpo", "[loaded from hp.obo] panics", json!({"facts": g.to_json(), "observed": pn})),
                     },
+                    _ if has_zero => ctx.bump("construction_refused_with_term_id_0", 1),
                     other => ctx.violation("Ontology::from_standard", "rejects valid JAX files", json!({"facts": g.to_json(), "observed": format!("{:?}", other.map(|r| r.map(|_| ())))})),
                 }
             }
@@ -635,9 +765,14 @@ pub fn run(ctx: &mut Ctx) {
     const NS: usize = 7;
     const ND: usize = 13;
     let queries = all_strings(&["A", "a", "B", "\u{e9}", " ", ",", "-", "1"], 3);
-    let key_ids: Vec<u32> = vec![0, 1, 2, 76, 77, 78, 255, 256, 65_535, 65_536, u32::MAX - 1, u32::MAX];
+    // the ids around the records, and every 2^k-1, 2^k, 2^k+1 (a key narrowed to 16 / 24 / 31 bits, or carrying a
+    // kind tag in its top bits, folds one of these onto the records 0, 1 and u32::MAX)
+    let mut key_ids: Vec<u32> = vec![0, 1, 2, 76, 77, 78, 255, 256, 65_535, 65_536, u32::MAX - 1, u32::MAX];
+    key_ids.extend(borders.iter().copied());
+    key_ids.sort_unstable();
+    key_ids.dedup();
     let symbol_keys: Vec<String> = symbols.iter().copied().chain(["B", "ab", "A ", " A", "AA", "a1", "A1 ", "A-b", "AB-", "A-", "1", "-"]).map(String::from).collect();
-    ctx.space("records/ids-symbols-names", "gene sets: all 16 subsets of ids {0,1,77,u32::MAX} x 7 symbol rotations (duplicate symbols included; symbols with digit and hyphen); OMIM/ORPHA sets: all subsets of <= 3 of 13 names (with comma, hyphen, digit, comma+blank) plus the full set, records with and without terms; per case two Builder-built ontologies with the same record ids but the next symbols / names, looked up in the order first, second, first, then the first one decoded from binary v3; every id key, every symbol, all 585 query strings over {A,a,B,é,space,comma,hyphen,1} up to length 3");
+    ctx.space("records/ids-symbols-names", "gene sets: all 16 subsets of ids {0,1,77,u32::MAX} x 7 symbol rotations (duplicate symbols included; symbols with digit and hyphen); OMIM/ORPHA sets: all subsets of <= 3 of 13 names (with comma, hyphen, digit, comma+blank) plus the full set, records with and without terms; per case two Builder-built ontologies with the same record ids but the next symbols / names, looked up in the order first, second, first, then the first one decoded from binary v3, then first / second / first again key by key (and pairs of name searches advanced in turns), every 16th case (thorough: every case) also on a clone of the first after the first is dropped; every id key (the ids around the records and every 2^k-1, 2^k, 2^k+1), every symbol, all 585 query strings over {A,a,B,é,space,comma,hyphen,1} up to length 3");
     // disease name subsets
     let mut name_sets: Vec<Vec<usize>> = vec![vec![]];
     for a in 0..ND {
@@ -706,7 +841,7 @@ pub fn run(ctx: &mut Ctx) {
             continue;
         }
         // the first ontology once more, decoded from the binary format (records without terms included)
-        match drive::from_bytes(&crate::encode::encode(&variants[0].f, &crate::encode::EncOpts::v(3))) {
+        match drive::from_bytes(&crate::encode::encode(&variants[0].f, &crate::encode::EncOpts::list_order(3))) {
             Ok(Ok(o)) => onts.push(o),
             other => {
                 ctx.violation("Ontology::from_bytes", "cannot decode a file laid out as documented", json!({"facts": variants[0].f.to_json(), "observed": format!("{:?}", other.map(|r| r.map(|_| ())))}));
@@ -714,6 +849,7 @@ pub fn run(ctx: &mut Ctx) {
             }
         }
         let mut strict_subset = false;
+        let mut failed = false;
         for (step, which) in [0usize, 1, 0, 2].into_iter().enumerate() {
             let vi = if which == 2 { 0 } else { which };
             let (ont, genes, omim, orpha) = (&onts[which], &variants[vi].genes, &variants[vi].omim, &variants[vi].orpha);
@@ -723,12 +859,37 @@ pub fn run(ctx: &mut Ctx) {
                 Ok(None) => {}
                 Ok(Some((site, sig, det))) => {
                     ctx.violation(&site, &sig, json!({"facts": variants[vi].f.to_json(), "difference": det, "looked_up_as": order, "other_ontology": variants[1 - vi].f.to_json()}));
+                    failed = true;
                     break;
                 }
                 Err(p) => {
                     ctx.violation("Ontology lookups", "panics", json!({"facts": variants[vi].f.to_json(), "observed": p, "looked_up_as": order}));
+                    failed = true;
                     break;
                 }
+            }
+        }
+        if !failed {
+            let (va, vb) = (&variants[0], &variants[1]);
+            let res = guard(|| {
+                check_records_alternating(&onts[0], [&va.genes, &va.omim, &va.orpha], &onts[1], [&vb.genes, &vb.omim, &vb.orpha], &key_ids, &symbol_keys, &queries).or_else(|| {
+                    // (a clone copies the 80 MB id table: every 16th case in the quick tier)
+                    if !thorough && si % 16 != 0 {
+                        return None;
+                    }
+                    // the record lookups on a clone, after the ontology it was made from is gone
+                    let first = onts.remove(0);
+                    let c = first.clone();
+                    drop(first);
+                    check_records(&c, &va.genes, &va.omim, &va.orpha, &key_ids, &symbol_keys, &queries, &mut strict_subset).map(|(site, sig, det)| (site, format!("[clone of the ontology, original dropped] {sig}"), det))
+                })
+            });
+            ctx.execs(3 * per / 2);
+            ctx.validateds(3 * per / 2);
+            match res {
+                Ok(None) => {}
+                Ok(Some((site, sig, det))) => ctx.violation(&site, &sig, json!({"first ontology": va.f.to_json(), "second ontology": vb.f.to_json(), "difference": det})),
+                Err(p) => ctx.violation("Ontology lookups", "panics", json!({"first ontology": va.f.to_json(), "second ontology": vb.f.to_json(), "observed": p, "looked_up_as": "alternating key by key / on a clone"})),
             }
         }
         if strict_subset {
@@ -737,10 +898,87 @@ pub fn run(ctx: &mut Ctx) {
         ctx.outcome(si as u64);
         ctx.sample(|| json!({"genes": variants[0].genes, "omim": variants[0].omim, "orpha": variants[0].orpha, "second ontology genes": variants[1].genes, "queries": queries.len()}));
     }
+    // ---- disease names in which a proper prefix of the query re-occurs right before the match (a hand-written
+    // substring search that does not back up after a partial match finds "AB" in "AB" but not in "AAB")
+    {
+        let pnames: [&str; 10] = ["AAB", "ABAB", "ABAAB", "aa\u{e9}", "AABAAB", "ABABC", "ABCABD", "a\u{e9}a\u{e9}\u{e9}", "AAAB", "ABABAC"];
+        let mut pqueries: Vec<String> = all_strings(&["A", "B"], 5);
+        pqueries.extend(all_strings(&["a", "\u{e9}"], 4));
+        pqueries.extend(all_strings(&["A", "B", "C", "D"], 3));
+        for name in pnames {
+            let cuts: Vec<usize> = name.char_indices().map(|c| c.0).chain([name.len()]).collect();
+            for (x, a) in cuts.iter().enumerate() {
+                for b in &cuts[x + 1..] {
+                    pqueries.push(name[*a..*b].to_string());
+                }
+            }
+        }
+        let mut seen = BTreeSet::new();
+        pqueries.retain(|q| seen.insert(q.clone()));
+        let mut sets: Vec<Vec<usize>> = vec![];
+        for a in 0..pnames.len() {
+            sets.push(vec![a]);
+            for b in a + 1..pnames.len() {
+                sets.push(vec![a, b]);
+            }
+        }
+        sets.push((0..pnames.len()).collect());
+        ctx.space("records/periodic-names", &format!("OMIM sets: every subset of <= 2 of the 10 names {pnames:?} plus the full set; per case a second Builder-built ontology with the same ids and the next names, looked up first, second, first, then key by key in turns; {} queries: all strings over {{A,B}} up to length 5, over {{a,é}} up to length 4, over {{A,B,C,D}} up to length 3, every substring of every name", pqueries.len()));
+        let none: BTreeMap<u32, String> = BTreeMap::new();
+        for (si, ns) in sets.iter().enumerate() {
+            if !ctx.take() {
+                continue;
+            }
+            ctx.state();
+            let mut maps: Vec<BTreeMap<u32, String>> = vec![];
+            let mut facts: Vec<Facts> = vec![];
+            for shift in 0..2usize {
+                let mut f = Facts::default();
+                f.terms = vec![Facts::term(1, "All"), Facts::term(118, "Phenotypic abnormality")];
+                f.edges = vec![(118, 1)];
+                let mut omim: BTreeMap<u32, String> = BTreeMap::new();
+                for (j, ni) in ns.iter().enumerate() {
+                    let id = 600_000 + 7 * j as u32;
+                    let name = pnames[(*ni + 3 * shift) % pnames.len()];
+                    omim.insert(id, name.to_string());
+                    f.anns.push(Facts::ann(Kind::Omim, id, name, if (j + si) % 2 == 0 { Some(118) } else { None }));
+                }
+                maps.push(omim);
+                facts.push(f);
+            }
+            let per = 2 * pqueries.len() as u64;
+            ctx.transitions(facts[0].n_steps() + facts[1].n_steps() + 6 * per);
+            ctx.execs(6 * per);
+            ctx.validateds(6 * per);
+            let onts: Vec<Ontology> = facts.iter().filter_map(|f| drive::build(f, Mode::Minimal).ok()).collect();
+            if onts.len() != 2 {
+                ctx.violation("Builder", "construction fails on valid facts", json!({"facts": facts[0].to_json()}));
+                continue;
+            }
+            let mut strict_subset = false;
+            let res = guard(|| {
+                let mut r = None;
+                for which in [0usize, 1, 0] {
+                    r = r.or_else(|| check_records(&onts[which], &none, &maps[which], &none, &[], &[], &pqueries, &mut strict_subset));
+                }
+                r.or_else(|| check_records_alternating(&onts[0], [&none, &maps[0], &none], &onts[1], [&none, &maps[1], &none], &[], &[], &pqueries))
+            });
+            match res {
+                Ok(None) => {}
+                Ok(Some((site, sig, det))) => ctx.violation(&site, &sig, json!({"omim diseases": maps[0], "second ontology": maps[1], "difference": det})),
+                Err(p) => ctx.violation("Ontology lookups", "panics", json!({"omim diseases": maps[0], "second ontology": maps[1], "observed": p})),
+            }
+            if strict_subset {
+                ctx.nontrivial();
+            }
+            ctx.outcome(0x9e37 ^ si as u64);
+            ctx.sample(|| json!({"omim": maps[0], "second ontology omim": maps[1], "queries": pqueries.len()}));
+        }
+    }
     // ---- large record sets with systematically generated names (a name index that only exists above some size)
     {
         let sizes: Vec<usize> = if thorough { vec![31, 32, 33, 40, 64, 65, 100, 128, 129, 255, 256, 257, 300, 1000, 1024, 1025, 3000] } else { vec![31, 32, 33, 40, 64, 65, 100, 128, 129, 255, 256, 257, 300] };
-        ctx.space("records/large-sets", &format!("record sets of {sizes:?} genes, OMIM and ORPHA diseases each, with generated symbols (stems GEN/Gen/ABC/AB/A/ZNF/orf/C1orf + number; every 7th a duplicate of its neighbour, every 5th a lower-case twin, some with é or a hyphen; many prefixes of each other) and disease names (hyphenated eponyms, commas, digits, upper/lower-case nouns, duplicates); two Builder-built ontologies with the same ids and the next names, looked up first, second, first, then the first decoded from binary v3; keys: every id +-1, every symbol and 8 variants of it (case, prefix, extended, blank), every disease name, every substring of four names, 10 rewritings of 24 names (case, punctuation dropped, hyphen as blank, blanks doubled, padded, words reversed), hand-written queries"));
+        ctx.space("records/large-sets", &format!("record sets of {sizes:?} genes, OMIM and ORPHA diseases each, with generated symbols (stems GEN/Gen/ABC/AB/A/ZNF/orf/C1orf + number; every 7th a duplicate of its neighbour, every 5th a lower-case twin, some with é or a hyphen; many prefixes of each other) and disease names (hyphenated eponyms, commas, digits, upper/lower-case nouns, duplicates); two Builder-built ontologies with the same ids and the next names, looked up first, second, first, then the first decoded from binary v3, then first / second / first again key by key (every 3rd query; thorough every query), then on a clone of the first after the first is dropped; keys: every id +-1, every 2^k-1, 2^k, 2^k+1, every symbol and 8 variants of it (case, prefix, extended, blank), every disease name, every substring of four names, 10 rewritings of 24 names (case, punctuation dropped, hyphen as blank, blanks doubled, padded, words reversed), hand-written queries"));
         let stem = |j: usize| -> String { format!("{}{}", ["GEN", "Gen", "ABC", "AB", "A", "ZNF", "orf", "C1orf"][j % 8], j) };
         let symbol = |j: usize| -> String {
             if j % 7 == 6 {
@@ -799,6 +1037,7 @@ pub fn run(ctx: &mut Ctx) {
                     key_ids.extend([base - 1, base, base + 1]);
                 }
             }
+            key_ids.extend(borders.iter().copied());
             key_ids.sort_unstable();
             key_ids.dedup();
             let dedup = |v: Vec<String>| -> Vec<String> {
@@ -860,7 +1099,7 @@ pub fn run(ctx: &mut Ctx) {
             if onts.len() != 2 {
                 continue;
             }
-            match drive::from_bytes(&crate::encode::encode(&variants[0].f, &crate::encode::EncOpts::v(3))) {
+            match drive::from_bytes(&crate::encode::encode(&variants[0].f, &crate::encode::EncOpts::list_order(3))) {
                 Ok(Ok(o)) => onts.push(o),
                 other => {
                     ctx.violation("Ontology::from_bytes", "cannot decode a file laid out as documented", json!({"records_per_kind": n, "observed": format!("{:?}", other.map(|r| r.map(|_| ())))}));
@@ -868,6 +1107,7 @@ pub fn run(ctx: &mut Ctx) {
                 }
             }
             let mut strict_subset = false;
+            let mut failed = false;
             for (step, which) in [0usize, 1, 0, 2].into_iter().enumerate() {
                 let vi = if which == 2 { 0 } else { which };
                 let (ont, v) = (&onts[which], &variants[vi]);
@@ -878,12 +1118,36 @@ pub fn run(ctx: &mut Ctx) {
                     Ok(None) => {}
                     Ok(Some((site, sig, det))) => {
                         ctx.violation(&site, &sig, json!({"records_per_kind": n, "difference": det, "looked_up_as": order, "first 40 genes": show(&v.genes), "first 40 omim": show(&v.omim)}));
+                        failed = true;
                         break;
                     }
                     Err(p) => {
                         ctx.violation("Ontology lookups", "panics", json!({"records_per_kind": n, "observed": p, "looked_up_as": order}));
+                        failed = true;
                         break;
                     }
+                }
+            }
+            if !failed {
+                let (va, vb) = (&variants[0], &variants[1]);
+                // key by key between the two Builder-built ontologies (every id key and symbol, every 3rd query -
+                // thorough: every query), then everything on a clone of the first one after the first is dropped
+                let some_queries: Vec<String> = queries.iter().step_by(if thorough { 1 } else { 3 }).cloned().collect();
+                let res = guard(|| {
+                    check_records_alternating(&onts[0], [&va.genes, &va.omim, &va.orpha], &onts[1], [&vb.genes, &vb.omim, &vb.orpha], &key_ids, &symbol_keys, &some_queries).or_else(|| {
+                        let first = onts.remove(0);
+                        let c = first.clone();
+                        drop(first);
+                        check_records(&c, &va.genes, &va.omim, &va.orpha, &key_ids, &symbol_keys, &queries, &mut strict_subset).map(|(site, sig, det)| (site, format!("[clone of the ontology, original dropped] {sig}"), det))
+                    })
+                });
+                ctx.execs(2 * per);
+                ctx.validateds(2 * per);
+                let show = |m: &BTreeMap<u32, String>| -> Vec<(u32, String)> { m.iter().take(40).map(|(k, v)| (*k, v.clone())).collect() };
+                match res {
+                    Ok(None) => {}
+                    Ok(Some((site, sig, det))) => ctx.violation(&site, &sig, json!({"records_per_kind": n, "difference": det, "first 40 genes": show(&va.genes), "first 40 omim": show(&va.omim), "second ontology, first 40 omim": show(&vb.omim)})),
+                    Err(p) => ctx.violation("Ontology lookups", "panics", json!({"records_per_kind": n, "observed": p, "looked_up_as": "alternating key by key / on a clone"})),
                 }
             }
             if strict_subset {
@@ -907,9 +1171,17 @@ pub fn run(ctx: &mut Ctx) {
         ctx.state();
         ctx.nontrivial();
         let seq: Vec<(u32, String)> = ids.iter().map(|i| (*i, format!("T{i}"))).collect();
-        let (f, added) = term_facts(&seq);
+        let (mut f, mut added) = term_facts(&seq);
         ctx.transitions(f.n_steps() + MAX_ID as u64);
-        match drive::build(&f, Mode::Minimal) {
+        let mut built = drive::build(&f, Mode::Minimal);
+        if built.is_err() && ids.contains(&0) {
+            // (a builder that refuses HP:0000000 as a term is not judged: the same set without it)
+            ctx.bump("construction_refused_with_term_id_0", 1);
+            f.terms.retain(|t| t.id != 0);
+            added.remove(&0);
+            built = drive::build(&f, Mode::Minimal);
+        }
+        match built {
             Err(e) => ctx.violation("Builder::new_term", "construction fails", json!({"id_set": name, "observed": e})),
             Ok(ont) => {
                 let r = guard(|| check_keys(&ont, &added, 0..MAX_ID + 10_000).or_else(|| check_keys(&ont, &added, borders.iter().copied())).or_else(|| check_iteration(&ont, &added)));
@@ -939,7 +1211,18 @@ pub fn run(ctx: &mut Ctx) {
                 }
                 ctx.state();
                 if ont.is_none() {
-                    ont = Some(drive::build(&f, Mode::Minimal).expect("build"));
+                    match drive::build(&f, Mode::Minimal) {
+                        Ok(o) => ont = Some(o),
+                        // (a builder that refuses HP:0000000 as a term is not judged)
+                        Err(_) if ids.contains(&0) => {
+                            ctx.bump("construction_refused_with_term_id_0", 1);
+                            continue;
+                        }
+                        Err(e) => {
+                            ctx.violation("Builder::new_term", "construction fails", json!({"term_ids_added": ids, "observed": e}));
+                            continue;
+                        }
+                    }
                 }
                 let lo = chunk << 24;
                 let hi = lo | 0x00ff_ffff;
